@@ -16,6 +16,7 @@ PriorsOf(kind) ==
     CASE kind = "scalar"  -> {0, 2}
       [] kind = "ptr"     -> {<<>>, <<2>>}
       [] kind = "slice"   -> {<<>>, <<1>>, <<1, 2>>, <<1, 2, 1>>}
+      [] kind = "pslice"  -> {<<>>, <<1, Nil, 2>>}
       [] kind = "array"   -> {<<0, 0>>, <<1, 2>>}
       [] kind = "map"     -> {[k \in {} |-> 0], [k \in {"a", "0"} |-> 1]}
       [] kind = "struct"  -> {[f \in StructFields |-> 0], [f \in StructFields |-> 2]}
@@ -27,7 +28,7 @@ C11Lists == UNION {[1..n -> C11Pts] : n \in 1..C11MaxLen}
 \* spellings of index 0) over a small alphabet, for the kinds where the order and multiplicity matter
 MultiPts == {Pt(k, 1, t) : k \in {"", "0", "1"}, t \in {0, 1, 3}}
 MultiLists == UNION {[1..n -> MultiPts] : n \in 2..3}
-MultiKinds == {"slice", "array", "map"}
+MultiKinds == {"slice", "pslice", "array", "map"}
 
 Init == \/ \E kind \in Kinds, rev \in BOOLEAN : \E v \in ValuesOf(kind) :
               c = [t |-> "rt", kind |-> kind, rev |-> rev, a |-> v]
